@@ -195,7 +195,8 @@ def run_property(modname, tier, seed, jobs=None):
                 if pr.fidelity is not None and nf < fid_budget:
                     nf += 1
                     conc_jobs.append(dict(kind="fidelity", module=modname, harness=t["harness"], params=t["params"],
-                                          inputs=pr.fidelity[0], expected=pr.fidelity[1], path_outcome=pr.outcome))
+                                          inputs=pr.fidelity[0], expected=pr.fidelity[1], path_outcome=pr.outcome,
+                                          expected_float=pr.fidelity[2] if len(pr.fidelity) > 2 else {}))
         conc_results = [r for _, r in pool.imap_unordered(_dispatch, [("conc", j) for j in conc_jobs])]
 
     # ---- aggregate
@@ -219,6 +220,7 @@ def run_property(modname, tier, seed, jobs=None):
                 merged_counters[k] = merged_counters.get(k, 0) + v
 
     violations, known_hits, unconfirmed, fid_ok, fid_bad, fid_boundary = [], {}, [], 0, [], 0
+    fid_float_checked = 0
     cand_groups = {}
     for cr in conc_results:
         j = cr["job"]
@@ -233,12 +235,19 @@ def run_property(modname, tier, seed, jobs=None):
                 g["confirmed"] = cr
         else:
             exp_outcome = j["path_outcome"]
-            same = cr["outcome"] == exp_outcome
+            # same verdict = both ok, or both raise the same exception type (the raise *site* may differ when several
+            # checks would fire and set-iteration order decides which object is computed first)
+            same = cr["outcome"].split("@")[0] == exp_outcome.split("@")[0]
             bad = []
             if same:
                 for k, ev in j["expected"].items():
                     if k in cr["observed"] and not _close(ev, cr["observed"][k]):
                         bad.append((k, str(ev), cr["observed"][k]))
+                for k, fv in (j.get("expected_float") or {}).items():
+                    if k in cr["observed"]:
+                        fid_float_checked += 1
+                        if not (isinstance(fv, float) and cr["observed"][k] == fv):
+                            bad.append((k, f"float-order {fv!r}", cr["observed"][k]))
             if same and not bad:
                 fid_ok += 1
             else:
@@ -317,6 +326,7 @@ def run_property(modname, tier, seed, jobs=None):
         non_exhaustive_instances=[f"{r['task']['harness']} {json.dumps(r['task']['params'], default=str)[:100]}"
                                   for r in sym_results if not r["exhaustive"]][:20],
         fidelity_replays_ok=fid_ok, fidelity_replays_bad=fid_bad[:10],
+        float_order_cells_checked_bit_for_bit=fid_float_checked,
         counterexamples_replayed=len(cand_groups), counterexamples_confirmed=sum(1 for g in cand_groups.values() if g["confirmed"]),
         unconfirmed_candidates=unconfirmed[:10],
         known_findings_matched=[dict(property=p, what=w, hits=n) for (p, w), n in known_hits.items()],
